@@ -417,6 +417,9 @@ def option_cases(ctx, script, judge, cov, dist):
         for hseed in (0, 7):
             cd = os.path.join(work, "l%d_%d" % (ci, hseed))
             os.makedirs(os.path.join(cd, "P", "D", "sub"))       # (DIR holds a sub-directory `sub`)
+            if "y" in labels:                                    # (and a file of an earlier run: `>` truncates it)
+                with open(os.path.join(cd, "P", "D", "y"), "w") as fh:
+                    fh.write("stale line of an earlier run\n" * 3)
             lrecs = [(t, "line-%d-%s" % (i, j)) for j in ("a", "b") for i, t in enumerate(labels)]
             data = "".join("%s: %s\n" % r for r in lrecs).encode()
             env["PERL_HASH_SEED"] = str(hseed)
@@ -436,8 +439,9 @@ def option_cases(ctx, script, judge, cov, dist):
                 ko = subprocess.run(["perl", "-e", "sub f { my %l = (); push(@{$l{$_}}, 1) for @ARGV; return %l; } my %m = &f (); print join(\"\\n\", keys %m), \"\\n\";"] +
                                     labels, stdout=subprocess.PIPE, env=env).stdout.decode("latin-1").split("\n")[:-1]
                 tree_cases.append((labels, hseed, r["rc"], got, case, ko))
-                tree_lines.append("w %d %s %s %s %s %s\n" % (rep_bits, hx("D"), hx("P"), ",".join(hx(x) for x in ("P", "P/D", "P/D/sub")),
-                                                           ",".join(hx(k) for k in ko), hx(data.decode("latin-1"))))
+                init = ("%s=%s" % (hx("P/D/y"), ",".join([hx("stale line of an earlier run")] * 3))) if "y" in labels else "."
+                tree_lines.append("w %d %s %s %s %s %s %s\n" % (rep_bits, hx("D"), hx("P"), ",".join(hx(x) for x in ("P", "P/D", "P/D/sub")),
+                                                              ",".join(hx(k) for k in ko), hx(data.decode("latin-1")), init))
             bad = None
             if r["rc"] == 0:
                 # every label must have a file of its own, inside D, holding its lines
